@@ -15,6 +15,8 @@ fn table() -> Vec<(&'static str, RunFn, ReplayFn)> {
         ("C03", props::c03::run as RunFn, props::c03::replay as ReplayFn),
         ("C05", props::c05::run as RunFn, props::c05::replay as ReplayFn),
         ("C07", props::c07::run as RunFn, props::c07::replay as ReplayFn),
+        ("C09", props::c09::run as RunFn, props::c09::replay as ReplayFn),
+        ("C10", props::c10::run as RunFn, props::c10::replay as ReplayFn),
         ("C11", props::c11::run as RunFn, props::c11::replay as ReplayFn),
         ("C18", props::c18::run as RunFn, props::c18::replay as ReplayFn),
         ("C19", props::c19::run as RunFn, props::c19::replay as ReplayFn),
